@@ -179,6 +179,28 @@ def binary_leg(ucg, rng, n, rep, stats):
             if os.path.exists(art):
                 os.unlink(art)
             os.unlink(src)
+            # "the process environment, nothing else": every fifth environment is also written out whole and must be
+            # exactly the environment the process was given - no variable missing, none invented, every value verbatim
+            if i % 5 == 0:
+                src2 = os.path.join(d, "all%d.ucg" % i)
+                with open(src2, "w") as f:
+                    f.write("out json {all = env};\n")
+                p2 = subprocess.run([ucg, "build", src2], env=full, cwd=d, capture_output=True, timeout=30)
+                art2 = os.path.join(d, "all%d.json" % i)
+                stats["whole_environment_runs"] = stats.get("whole_environment_runs", 0) + 1
+                got = None
+                if p2.returncode == 0 and os.path.exists(art2):
+                    try:
+                        got = json.load(open(art2, encoding="utf-8")).get("all")
+                    except Exception:
+                        got = None
+                if got != full:
+                    rep.disagree({"leg": "binary", "what": "`out json {all = env}` is not the process environment",
+                                  "env": full, "observed": got, "exit": p2.returncode,
+                                  "stderr": p2.stderr.decode("utf-8", "replace")[:300]}, key="whole-environment-differs")
+                for x in (src2, art2):
+                    if os.path.exists(x):
+                        os.unlink(x)
     finally:
         shutil.rmtree(d, ignore_errors=True)
 
